@@ -21,7 +21,7 @@ RULE = ('operand pairs: L x qd x independent bond profiles x every sector-consis
 BUDGET = {'quick': 400, 'thorough': 3600}
 DTYPES = ['cc', 'rr', 'rc', 'cr']
 # dtypes varying from site to site within one operand (see _site_dtypes)
-DTYPES_SITE = ['mr', 'rm', 'mm', 'wm', 'fv', 'vf']
+DTYPES_SITE = ['mr', 'rm', 'mm', 'wm', 'fv', 'vf', 'uU', 'Uc']
 QDS = [[0, 1], [1, -1], [0, 0], [0]]
 
 
@@ -29,10 +29,17 @@ def _site_dtypes(A, code):
     """
     Per-site dtypes of an operand: 'r' all real, 'c' all complex, 'm' real boundary tensors with complex interior,
     'w' complex first tensor and real elsewhere; memory layout: 'f' complex column-major, 'v' complex strided views
-    (True is read as 'r', False as 'c').
+    'u' / 'U' complex with unbalanced power-of-two units (True is read as 'r', False as 'c').
     """
     code = {True: 'r', False: 'c'}.get(code, code)
     L = len(A)
+    if code in ('u', 'U'):
+        # unbalanced units: the tensors carry exact power-of-two factors that multiply to one (the dense object is unchanged and of order
+        # one), but every partial product from the left ('u') resp. from the right ('U') is of order 1e-9 ... 1e-18
+        fac = {1: [1.0], 2: [2.0 ** -40, 2.0 ** 40]}.get(L, [2.0 ** -30, 2.0 ** -30] + [1.0] * (L - 3) + [2.0 ** 60])
+        if code == 'U':
+            fac = fac[::-1]
+        return [a * f for a, f in zip(A, fac)]
     if code == 'f':
         # complex entries, column-major storage
         return [np.asfortranarray(a) for a in A]
@@ -324,17 +331,17 @@ def spaces(tier, seed):
         Space('mps_pairs', core.chunked(_mps_pair_cases(Ls, QDS, Ds), 400), run_case=run_case, sig=sig,
               bounds={'L': Ls, 'qd': QDS, 'D': Ds, 'dtypes': DTYPES, 'ops': ['+', '-']}),
         Space('mps_pairs_site_dtypes', core.chunked(itertools.chain(_mps_pair_cases([3], QDS[:2] if tier == 'quick' else QDS, [1, 2],
-                                                                                   ['mr', 'wm', 'fv'] if tier == 'quick' else DTYPES_SITE),
+                                                                                   ['mr', 'wm', 'fv', 'uU'] if tier == 'quick' else DTYPES_SITE),
                                                                    _mps_pair_cases([] if tier == 'quick' else [4], QDS[:1], [1, 2], ['mr', 'wm'])), 400), run_case=run_case, sig=sig,
               bounds={'L': '3 (quick) / 3,4 (thorough)', 'D': [1, 2], 'dtypes': "per-site: m = real boundary tensors, complex interior; w = complex first tensor only"}),
         Space('mpo_pairs', core.chunked(_mpo_pair_cases(Lmpo, qds_mpo, [1, 2]), 200), run_case=run_case, sig=sig,
               bounds={'L': Lmpo, 'qd': qds_mpo, 'D': [1, 2], 'dtypes': DTYPES, 'ops': ['+', '-', '@', 'as_matrix dense/sparse']}),
         Space('apply', core.chunked(_apply_cases(Lmpo, qds_mpo, [1, 2]), 300), run_case=run_case, sig=sig,
               bounds={'L': Lmpo, 'qd': qds_mpo, 'D': [1, 2], 'dtypes': DTYPES}),
-        Space('mpo_pairs_L3', core.chunked(itertools.chain(_mpo_pair_cases([3], [[0, 1]], [1, 2], ['rc']), _mpo_pair_cases([3], [[0, 1]], [2], ['mr', 'vf'])) if tier == 'quick'
+        Space('mpo_pairs_L3', core.chunked(itertools.chain(_mpo_pair_cases([3], [[0, 1]], [1, 2], ['rc']), _mpo_pair_cases([3], [[0, 1]], [2], ['mr', 'vf', 'uU'])) if tier == 'quick'
                                            else _mpo_pair_cases([3], qds_mpo, [1, 2], DTYPES + DTYPES_SITE), 200),
               run_case=run_case, sig=sig, bounds={'L': [3], 'D': [1, 2], 'dtypes': 'quick: rc / cr on D in {1,2}, per-site and layout codes mr, vf / fv on D = 2; thorough: all uniform + mr, rm, mm, wm, fv, vf on D in {1,2}'}),
-        Space('apply_L3', core.chunked(itertools.chain(_apply_cases([3], [[0, 1]], [1, 2], ['cr']), _apply_cases([3], [[0, 1]], [2], ['mr', 'fv'])) if tier == 'quick'
+        Space('apply_L3', core.chunked(itertools.chain(_apply_cases([3], [[0, 1]], [1, 2], ['cr']), _apply_cases([3], [[0, 1]], [2], ['mr', 'fv', 'Uu'])) if tier == 'quick'
                                        else _apply_cases([3], qds_mpo, [1, 2], DTYPES + DTYPES_SITE), 300),
               run_case=run_case, sig=sig, bounds={'L': [3], 'D': [1, 2], 'dtypes': 'quick: rc / cr on D in {1,2}, per-site and layout codes mr, vf / fv on D = 2; thorough: all uniform + mr, rm, mm, wm, fv, vf on D in {1,2}'}),
         Space('chained', core.chunked(_chain_cases([1, 2, 3], [[0, 1], [0, 0]]), 100), run_case=run_case, sig=sig,
